@@ -220,8 +220,8 @@ Fixpoint c02_run (c : ccfg) (m : wmon) (ops : list wop) (tr : list wobs) : bool 
     let m2 := match o, l with
               | SPollCall i, [OCall (CDone _)] =>
                 {| wm_calls := wm_calls m1; wm_live := wm_live m1; wm_done := i :: wm_done m1; wm_dropped := wm_dropped m1; wm_handles := wm_handles m1; wm_dead := wm_dead m1; wm_ended := wm_ended m1; wm_ready := wm_ready m1; wm_flush := wm_flush m1; wm_tainted := wm_tainted m1; wm_delivered := wm_delivered m1; wm_read := wm_read m1 |}
-              | SPollD, [_; ODisp (DReady d); _] =>
-                {| wm_calls := wm_calls m1; wm_live := wm_live m1; wm_done := wm_done m1; wm_dropped := wm_dropped m1; wm_handles := wm_handles m1; wm_dead := match d with DErr _ => true | DOk => wm_dead m1 end; wm_ended := true; wm_ready := wm_ready m1; wm_flush := wm_flush m1; wm_tainted := wm_tainted m1; wm_delivered := wm_delivered m1; wm_read := wm_read m1 |}
+              | SPollD, [OCalls cl; ODisp r; _] =>
+                {| wm_calls := wm_calls m1; wm_live := wm_live m1; wm_done := wm_done m1; wm_dropped := wm_dropped m1; wm_handles := wm_handles m1; wm_dead := match r with DReady (DErr _) => true | _ => wm_dead m1 end; wm_ended := match r with DReady _ => true | _ => wm_ended m1 end; wm_ready := wm_ready m1; wm_flush := wm_flush m1; wm_tainted := wm_tainted m1; wm_delivered := wm_delivered m1; wm_read := wm_read m1 + length (reads_of cl) |}
               | _, _ => m1 end in
     negb (existsb (fun x => match x with OPanic | OSpin => true | _ => false end) l)
     && c02_run c m2 ops' tr'
